@@ -98,7 +98,12 @@ scheme, as they don't correspond to any particular rule.`,
 				if err = parseRuleId(filename); err == nil {
 					filePath = path.Join(ctxt.RootContext().AssemblyDir(), ruleValues.fileName)
 				}
-				err = processFile(filePath, ctxt, checkOnly)
+				// a name that climbs out of the assembly directory does not refer to a file of this root
+				if rel, relErr := filepath.Rel(ctxt.RootContext().AssemblyDir(), filePath); relErr != nil || rel == ".." || strings.HasPrefix(rel, "../") {
+					err = fmt.Errorf("%s is not a file below %s", args[0], ctxt.RootContext().AssemblyDir())
+				} else {
+					err = processFile(filePath, ctxt, checkOnly)
+				}
 			}
 
 			if err != nil {
